@@ -105,6 +105,11 @@ pub fn gen(tier: Tier, r: &mut Rng, emit: &mut dyn FnMut(String)) {
         let ps = deep_stream(r);
         emit_stream(&ps, emit);
     }
+    // indentless sequences under the first / middle / last key of compact mappings, nested
+    for _ in 0..(if tier == Tier::Quick { 300 } else { 6_000 }) {
+        let ps = indentless_stream(r);
+        emit_stream(&ps, emit);
+    }
     // CLI leg: multi-document batches (one process per batch) of documents without a presentation
     // feature that has a recorded loader finding (those are exercised by the library leg above)
     if std::env::var("SV_CLI").is_ok() {
